@@ -18,10 +18,10 @@ import (
 var vProjectFiles = map[string]string{
 	".git/HEAD":                    "ref: refs/heads/main\n",
 	"act/action.yml":               "name: act\ndescription: d\ninputs:\n  in1:\n    description: d\n    required: true\n  in2:\n    description: d\n    default: x\noutputs:\n  out1:\n    description: d\n    value: v\nruns:\n  using: composite\n  steps:\n    - run: echo\n      shell: bash\n",
-	".github/workflows/callee.yml": "on:\n  workflow_call:\n    inputs:\n      cstr:\n        type: string\n      cnum:\n        type: number\n      cbool:\n        type: boolean\n      cany:\n        description: no type\n    secrets:\n      csec:\n        required: true\n    outputs:\n      cout:\n        value: v\njobs:\n  j:\n    runs-on: ubuntu-latest\n    steps:\n      - run: echo\n",
+	".github/workflows/callee.yml": "on:\n  workflow_call:\n    inputs:\n      cstr:\n        type: string\n      cnum:\n        type: number\n      cbool:\n        type: boolean\n      cany:\n        description: no type\n      args:\n        type: string\n      entrypoint:\n        type: string\n    secrets:\n      csec:\n        required: true\n    outputs:\n      cout:\n        value: v\njobs:\n  j:\n    runs-on: ubuntu-latest\n    steps:\n      - run: echo\n",
 }
 
-const vProjectCaller = "on: push\njobs:\n  a:\n    runs-on: ubuntu-latest\n    steps:\n      - uses: ./act\n        id: s\n        with:\n          in1: x\n          in2: y\n      - run: echo ${{ steps.s.outputs.out1 }}\n  b:\n    uses: ./.github/workflows/callee.yml\n    with:\n      cstr: x\n      cnum: 1\n      cbool: true\n      cany: z\n    secrets:\n      csec: x\n  c:\n    needs: b\n    runs-on: ubuntu-latest\n    steps:\n      - run: echo ${{ needs.b.outputs.cout }}\n"
+const vProjectCaller = "on: push\njobs:\n  a:\n    runs-on: ubuntu-latest\n    steps:\n      - uses: ./act\n        id: s\n        with:\n          in1: x\n          in2: y\n      - run: echo ${{ steps.s.outputs.out1 }}\n  b:\n    uses: ./.github/workflows/callee.yml\n    with:\n      cstr: x\n      cnum: 1\n      cbool: true\n      cany: z\n      args: a\n      Entrypoint: e\n    secrets:\n      csec: x\n  c:\n    needs: b\n    runs-on: ubuntu-latest\n    steps:\n      - run: echo ${{ needs.b.outputs.cout }}\n"
 
 func vProjectLint(t *testing.T) func(src string) vLintResult {
 	dir := vTempDir(t, "c03p-")
